@@ -81,8 +81,13 @@ pub fn gen_plan(seed: u64, run: u64, _tier: &str) -> Plan {
     let n_pre = rng.range(0, 3);
     let pre: Vec<ApiOp> = (0..n_pre).map(|_| gen_client_op(&mut rng)).collect();
     let n_threads = if rng.chance(2, 3) { 2 } else { 3 };
-    let threads: Vec<Vec<ApiOp>> = (0..n_threads).map(|_| (0..rng.range(2, 4)).map(|_| gen_client_op(&mut rng)).collect()).collect();
+    let mut threads: Vec<Vec<ApiOp>> = (0..n_threads).map(|_| (0..rng.range(2, 4)).map(|_| gen_client_op(&mut rng)).collect()).collect();
     let final_flush = rng.chance(1, 2);
+    // background work next to the clients in a third of the programs: a thread that drains the recent-write tier
+    // (no register operation of its own; whatever it does must stay invisible to the clients' reads)
+    if prog % 3 == 1 {
+        threads.push((0..1 + prog % 2).map(|_| ApiOp::Flush { force: true }).collect());
+    }
     let env_seed = rng.next();
     let mut srng = Rng::for_run(seed, "C05s", run);
     let sched = SchedSpec::gen(&mut srng, 150);
